@@ -836,6 +836,13 @@ pub fn run(env: &Env) -> i32 {
     cov.insert("samples".into(), json!([sample]));
     cov.insert("planted_per_class".into(), json!(per_class.iter().map(|(k, v)| (k.to_string(), json!({"planted": v.0, "fired": v.1}))).collect::<BTreeMap<_, _>>()));
     cov.insert("classes".into(), json!(CLASSES));
+    {
+        let mut probes: Vec<(&str, usize)> = CLASSES.iter().map(|c| (*c, per_class.get(c).map(|v| v.1).unwrap_or(0))).collect();
+        probes.push(("sarif-write-fault-next-to-a-planted-failure", results.iter().map(|r| r.sarif_faults_fired).sum::<usize>()));
+        crate::report::add_probes(&mut cov, &probes);
+        let fired: BTreeMap<String, usize> = probes.iter().map(|(k, v)| (k.to_string(), *v)).collect();
+        cov.insert("fault_kinds_fired".into(), json!(fired));
+    }
     cov.insert("runs_with_sarif_write_fault_fired".into(), json!(results.iter().map(|r| r.sarif_faults_fired).sum::<usize>()));
     cov.insert("runs_skipped_because_crashed".into(), json!(results.iter().map(|r| r.skipped_crash).sum::<usize>()));
     cov.insert("simulated_seconds".into(), json!(results.iter().map(|r| r.sim_ns as i128).sum::<i128>() as f64 / 1e9));
